@@ -29,21 +29,25 @@ def parseRawData : Nat → Bytes → List Bytes → Res (List Bytes)
     else parseRawData fuel (actual.drop unitLen) (units ++ [actual.take unitLen])
 
 /-- `extractRawData` (after the `fix:` for F3): leading shares in which no unit starts are
-    skipped; the first share with a unit start is entered through its reserved bytes. -/
-def extractRawData : List Bytes → Bool → Bytes → Res Bytes
-  | [], _, acc => .ok acc
-  | s :: rest, found, acc =>
+    skipped; the first share with a unit start is entered through its reserved bytes.
+    `found` is Go's `foundUnitStart`. -/
+def extractRawData : List Bytes → Bool → Res Bytes
+  | [], _ => .ok []
+  | s :: rest, found =>
     if !found then do
       let raw ← Share.rawDataUsingReserved s
-      extractRawData rest (raw.length > 0) (acc ++ raw)
-    else extractRawData rest true (acc ++ Share.rawData s)
+      let more ← extractRawData rest (!raw.isEmpty)
+      .ok (raw ++ more)
+    else do
+      let more ← extractRawData rest true
+      .ok (Share.rawData s ++ more)
 
 /-- `parseCompactShares` / `ParseTxs`. -/
 def parseCompactShares (shares : List Bytes) : Res (List Bytes) :=
-  if shares.length = 0 then .ok []
+  if shares.isEmpty then .ok []
   else if shares.any (fun s => Share.version s ≠ 0) then .error .err
   else do
-    let raw ← extractRawData shares false []
+    let raw ← extractRawData shares false
     parseRawData (raw.length + 1) raw []
 
 def parseTxs := parseCompactShares
